@@ -681,10 +681,17 @@ Section Sim.
     forall m, sl = Some m -> 1 <= m /\ m < length (locals env) /\ hi <= ct /\ ct <= bt /\ bt < length code /\
                              m + hi <= length code.
 
+  (* the code of a statement (list) ends strictly inside the function -- except that a `return` may be its last
+     instruction (then the compiler appends no `void; ret`) *)
+  Definition is_ret (st : stmt) : bool := match st with SReturn (Some _) => true | _ => false end.
+  Fixpoint ends_ret (l : list stmt) : bool :=
+    match l with [] => true | [st] => is_ret st | _ :: l' => ends_ret l' end.
+  Definition endok (fin : nat) (r : bool) : Prop := fin < length code \/ (r = true /\ fin = length code).
+
   Definition stmt_spec (st : stmt) : Prop :=
     forall pins lr il sl bt ct fuel k a g env s B, fuel <= FU ->
       ok_stmt FT il B st = true -> bound_in B env ->
-      items_at bt ct k (sitems c lr sl st) -> k + length (sitems c lr sl st) < length code ->
+      items_at bt ct k (sitems c lr sl st) -> endok (k + length (sitems c lr sl st)) (is_ret st) ->
       lc_ok il sl bt ct env (k + length (sitems c lr sl st)) ->
       a_ip a = k -> a_cb a = cb -> Rst pins env s a g ->
       post pins sl bt ct (k + length (sitems c lr sl st)) (after B st) env (frames g) a g (Eval.exec fuel env st s).
@@ -695,7 +702,7 @@ Section Sim.
   Definition block_spec (l : list stmt) : Prop :=
     forall pins lr il sl bt ct fuel k a g env s B, fuel <= FU ->
       ok_block FT il B l = true -> bound_in B env ->
-      items_at bt ct k (bitems c lr sl l) -> k + length (bitems c lr sl l) < length code ->
+      items_at bt ct k (bitems c lr sl l) -> endok (k + length (bitems c lr sl l)) (ends_ret l) ->
       lc_ok il sl bt ct env (k + length (bitems c lr sl l)) ->
       a_ip a = k -> a_cb a = cb -> Rst pins env s a g ->
       post pins sl bt ct (k + length (bitems c lr sl l)) (after_l B l) env (frames g) a g (exec_block fuel env l s).
@@ -1311,7 +1318,7 @@ Section Sim.
 
   Lemma assign_correct : forall x e, stmt_spec (SAssign x e).
   Proof.
-    intros x e pins lr il sl bt ct fuel k a g env s B Hfu Hok Hb Hit Hend Hlc Hip Hcb HR.
+    intros x e pins lr il sl bt ct fuel k a g env s B Hfu Hok Hb Hit Hend Hlc Hip Hcb HR. destruct Hend as [Hend|[Hend _]]; [|discriminate Hend].
     destruct fuel as [|fuel]; [exact Logic.I|].
     cbn [ok_stmt] in Hok. rewrite !Bool.andb_true_iff in Hok. destruct Hok as [[Hx Hxf] Hoe].
     apply Bool.negb_true_iff in Hxf. pose proof (uname_of_b x Hx Hxf) as Hxu. clear Hx. rename Hxu into Hx.
@@ -1341,7 +1348,7 @@ Section Sim.
 
   Lemma print_correct : forall e, stmt_spec (SPrint e).
   Proof.
-    intros e pins lr il sl bt ct fuel k a g env s B Hfu Hok Hb Hit Hend Hlc Hip Hcb HR.
+    intros e pins lr il sl bt ct fuel k a g env s B Hfu Hok Hb Hit Hend Hlc Hip Hcb HR. destruct Hend as [Hend|[Hend _]]; [|discriminate Hend].
     destruct fuel as [|fuel]; [exact Logic.I|].
     cbn [ok_stmt] in Hok. rename Hok into Hoe.
     cbn [sitems] in *. rewrite app_length, map_length in *. cbn [length] in *.
@@ -1371,7 +1378,7 @@ Section Sim.
 
   Lemma expr_stmt_correct : forall e, stmt_spec (SExpr e).
   Proof.
-    intros e pins lr il sl bt ct fuel k a g env s B Hfu Hok Hb Hit Hend Hlc Hip Hcb HR.
+    intros e pins lr il sl bt ct fuel k a g env s B Hfu Hok Hb Hit Hend Hlc Hip Hcb HR. destruct Hend as [Hend|[Hend _]]; [|discriminate Hend].
     destruct fuel as [|fuel]; [exact Logic.I|].
     cbn [ok_stmt] in Hok. rename Hok into Hoe.
     cbn [sitems] in *. rewrite app_length, map_length in *. cbn [length] in *.
@@ -1399,7 +1406,7 @@ Section Sim.
 
   Lemma assert_correct : forall e sp, stmt_spec (SAssert e sp).
   Proof.
-    intros e sp pins lr il sl bt ct fuel k a g env s B Hfu Hok Hb Hit Hend Hlc Hip Hcb HR.
+    intros e sp pins lr il sl bt ct fuel k a g env s B Hfu Hok Hb Hit Hend Hlc Hip Hcb HR. destruct Hend as [Hend|[Hend _]]; [|discriminate Hend].
     destruct fuel as [|fuel]; [exact Logic.I|].
     cbn [ok_stmt] in Hok. rename Hok into Hoe.
     cbn [sitems] in *. rewrite app_length, map_length in *. cbn [length] in *.
@@ -1436,7 +1443,7 @@ Section Sim.
 
   Lemma opassign_correct : forall x o e, stmt_spec (SOpAssign x o e).
   Proof.
-    intros x o e pins lr il sl bt ct fuel k a g env s B Hfu Hok Hb Hit Hend Hlc Hip Hcb HR.
+    intros x o e pins lr il sl bt ct fuel k a g env s B Hfu Hok Hb Hit Hend Hlc Hip Hcb HR. destruct Hend as [Hend|[Hend _]]; [|discriminate Hend].
     destruct fuel as [|fuel]; [exact Logic.I|].
     cbn [ok_stmt] in Hok. rewrite !Bool.andb_true_iff in Hok. destruct Hok as [[[Ho Hx] HxB] Hoe].
     apply src_nameb_ok in Hx. apply mem_str_In in HxB.
@@ -1502,7 +1509,7 @@ Section Sim.
 
   Lemma break_correct : stmt_spec SBreak.
   Proof.
-    intros pins lr il sl bt ct fuel k a g env s B Hfu Hok Hb Hit Hend Hlc Hip Hcb HR.
+    intros pins lr il sl bt ct fuel k a g env s B Hfu Hok Hb Hit Hend Hlc Hip Hcb HR. destruct Hend as [Hend|[Hend _]]; [|discriminate Hend].
     destruct fuel as [|fuel]; [exact Logic.I|].
     cbn [ok_stmt] in Hok. destruct Hlc as [Hsl Hlc]. specialize (Hsl Hok).
     destruct sl as [m|]; [|congruence]. destruct (Hlc m eq_refl) as (Hm1 & Hm2 & Hct & Hbt & Hlen & Hmc).
@@ -1523,7 +1530,7 @@ Section Sim.
 
   Lemma continue_correct : stmt_spec SContinue.
   Proof.
-    intros pins lr il sl bt ct fuel k a g env s B Hfu Hok Hb Hit Hend Hlc Hip Hcb HR.
+    intros pins lr il sl bt ct fuel k a g env s B Hfu Hok Hb Hit Hend Hlc Hip Hcb HR. destruct Hend as [Hend|[Hend _]]; [|discriminate Hend].
     destruct fuel as [|fuel]; [exact Logic.I|].
     cbn [ok_stmt] in Hok. destruct Hlc as [Hsl Hlc]. specialize (Hsl Hok).
     destruct sl as [m|]; [|congruence]. destruct (Hlc m eq_refl) as (Hm1 & Hm2 & Hct & Hbt & Hlen & Hmc).
@@ -1598,6 +1605,13 @@ Section Sim.
   Lemma lc_ok_m : forall il sl bt ct env hi, lc_ok il sl bt ct env hi -> forall m, sl = Some m -> 1 <= m.
   Proof. intros il sl bt ct env hi [_ H] m E. exact (proj1 (H m E)). Qed.
 
+  Lemma sitems_pos : forall il B lr sl st, ok_stmt FT il B st = true -> 1 <= length (sitems c lr sl st).
+  Proof.
+    intros il B lr sl st H. destruct st; try discriminate; cbn [sitems]; rewrite ?app_length; cbn [length]; try lia.
+    - destruct name0 as [x|]; [|discriminate]. destruct collide; [discriminate|]. rewrite ?app_length. cbn [length]. lia.
+    - destruct e as [e|]; [|discriminate]. rewrite app_length. cbn [length]. lia.
+  Qed.
+
   Lemma block_of_stmts : forall l, Forall stmt_spec l -> block_spec l.
   Proof.
     induction l as [|st l IH]; intros HF pins lr il sl bt ct fuel k a g env s B Hfu Hok Hb Hit Hend Hlc Hip Hcb HR.
@@ -1608,12 +1622,23 @@ Section Sim.
       destruct fuel as [|fuel]; [exact Logic.I|]. rewrite exec_block_cons.
       cbn [ok_block] in Hok. apply Bool.andb_true_iff in Hok as [Hok1 Hok2].
       cbn [bitems] in *. rewrite app_length in *. apply items_at_app in Hit as [Hit1 Hit2].
-      pose proof (Hst pins lr il sl bt ct fuel k a g env s B ltac:(lia) Hok1 Hb Hit1 ltac:(lia)
+      assert (Hle : k + length (sitems c lr sl st) + length (bitems c lr sl l) <= length code).
+      { destruct Hend as [H|[_ H]]; lia. }
+      assert (Hend1 : endok (k + length (sitems c lr sl st)) (is_ret st)).
+      { destruct l as [|st2 l2].
+        - cbn [bitems length ends_ret] in Hend. rewrite Nat.add_0_r in Hend. exact Hend.
+        - left. cbn [ok_block] in Hok2. apply Bool.andb_true_iff in Hok2 as [Hk2 _].
+          pose proof (sitems_pos il (after B st) lr sl st2 Hk2). cbn [bitems] in Hle. rewrite app_length in Hle. lia. }
+      assert (Hend2 : endok (k + length (sitems c lr sl st) + length (bitems c lr sl l)) (ends_ret l)).
+      { destruct l as [|st2 l2].
+        - cbn [bitems length ends_ret] in *. destruct (Nat.eq_dec (k + length (sitems c lr sl st) + 0) (length code)); [right; auto|left; lia].
+        - rewrite Nat.add_assoc in Hend. exact Hend. }
+      pose proof (Hst pins lr il sl bt ct fuel k a g env s B ltac:(lia) Hok1 Hb Hit1 Hend1
                       (lc_ok_mono il sl bt ct env env _ (k + length (sitems c lr sl st)) Hlc ltac:(lia) eq_refl) Hip Hcb HR) as H1.
       destruct (Eval.exec fuel env st s) as [sig env1 s1|f s1|]; [|exact H1|exact Logic.I].
       destruct sig as [| | |rv].
       + cbn [post] in H1. destruct H1 as (Hd & HB1 & a1 & g1 & R1 & Hip1 & HR1 & Ha1 & Hf1).
-        pose proof (IH pins lr il sl bt ct fuel (k + length (sitems c lr sl st)) a1 g1 env1 s1 (after B st) ltac:(lia) Hok2 HB1 Hit2 ltac:(lia)
+        pose proof (IH pins lr il sl bt ct fuel (k + length (sitems c lr sl st)) a1 g1 env1 s1 (after B st) ltac:(lia) Hok2 HB1 Hit2 Hend2
                        (lc_ok_mono il sl bt ct env env1 _ (k + length (sitems c lr sl st) + length (bitems c lr sl l)) Hlc ltac:(lia) (same_tl_length _ _ (Rg_ne _ _ _ (proj1 HR)) Hd)) Hip1 (eq_trans (proj2 (proj2 Ha1)) Hcb) HR1) as H2.
         rewrite Nat.add_assoc.
         eapply post_seq; [exact R1|exact Hd|exact Ha1|].
@@ -1679,7 +1704,7 @@ Section Sim.
         destruct (H1 m eq_refl) as (A1 & A2 & A3 & A4 & A5 & A6). cbn [push_scope locals length].
         repeat split; try assumption; lia. }
     pose proof (Hbody pins lr il (option_map S sl) bt ct fuel kb (set_ss a (S (a_ss a))) (push_frame g lb) (push_scope env) s B
-                  Hfu Hok Hb Hitb ltac:(fold len; lia) Hlc0 Hip Hcb HR0) as H.
+                  Hfu Hok Hb Hitb ltac:(left; fold len; lia) Hlc0 Hip Hcb HR0) as H.
     fold len in H. unfold in_block_.
     destruct (exec_block fuel (push_scope env) body s) as [sig env2 s2|f s2|]; [|exact H|exact Logic.I].
     cbn [post] in H |- *. destruct H as [Hd H].
@@ -1724,7 +1749,7 @@ Section Sim.
 
   Lemma if_correct : forall cnd body, block_spec body -> stmt_spec (SIf cnd body).
   Proof.
-    intros cnd body Hbody pins lr il sl bt ct fuel k a g env s B Hfu Hok Hb Hit Hend Hlc Hip Hcb HR.
+    intros cnd body Hbody pins lr il sl bt ct fuel k a g env s B Hfu Hok Hb Hit Hend Hlc Hip Hcb HR. destruct Hend as [Hend|[Hend _]]; [|discriminate Hend].
     destruct fuel as [|fuel]; [exact Logic.I|].
     rewrite ok_SIf in Hok. apply Bool.andb_true_iff in Hok as [Hoe Hokb].
     rewrite sitems_SIf in *. cbv zeta in *.
@@ -1781,7 +1806,7 @@ Section Sim.
 
   Lemma ifelse_correct : forall cnd body els, block_spec body -> block_spec els -> stmt_spec (SIfElse cnd body els).
   Proof.
-    intros cnd body els Hbody Hels pins lr il sl bt ct fuel k a g env s B Hfu Hok Hb Hit Hend Hlc Hip Hcb HR.
+    intros cnd body els Hbody Hels pins lr il sl bt ct fuel k a g env s B Hfu Hok Hb Hit Hend Hlc Hip Hcb HR. destruct Hend as [Hend|[Hend _]]; [|discriminate Hend].
     destruct fuel as [|fuel]; [exact Logic.I|].
     rewrite ok_SIfElse in Hok. rewrite !Bool.andb_true_iff in Hok. destruct Hok as [[Hoe Hokb] Hoke].
     rewrite sitems_SIfElse in *. cbv zeta in *.
@@ -1912,7 +1937,7 @@ Section Sim.
 
   Lemma while_correct : forall cnd body, block_spec body -> stmt_spec (SWhile cnd body).
   Proof.
-    intros cnd body Hbody pins lr il sl bt ct fuel k a g env s B Hfu Hok Hb Hit Hend Hlc Hip Hcb HR.
+    intros cnd body Hbody pins lr il sl bt ct fuel k a g env s B Hfu Hok Hb Hit Hend Hlc Hip Hcb HR. destruct Hend as [Hend|[Hend _]]; [|discriminate Hend].
     rewrite ok_SWhile in Hok. apply Bool.andb_true_iff in Hok as [Hoe Hokb].
     rewrite sitems_SWhile in *. cbv zeta in *.
     set (cb0 := bitems c lr (Some 1) body) in *.
@@ -1981,7 +2006,7 @@ Section Sim.
     { split; [discriminate|]. intros m E. inversion E; subst m. cbn [push_scope locals length].
       fold kj. repeat split; try lia. }
     pose proof (Hbody pins lr true (Some 1) fin kj fuel (S k1) a0 g0 (push_scope env) s B ltac:(lia) Hokb Hb Hib
-                  ltac:(fold cb0; lia) Hlc0 eq_refl Hcb HR0) as H.
+                  ltac:(left; fold cb0; lia) Hlc0 eq_refl Hcb HR0) as H.
     fold cb0 in H. fold kj in H. unfold in_block_.
     destruct (exec_block fuel (push_scope env) body s) as [sig env2 s2|f s2|]; [| |exact Logic.I].
     2:{ (* the body fails *)
@@ -2217,7 +2242,7 @@ Section Sim.
   Lemma from_correct : forall a0 b incl step x body, block_spec body ->
     stmt_spec (SFrom a0 b incl step (Some x) false body).
   Proof.
-    intros a0 b incl step x body Hbody pins lr il sl bt ct fuel k a g env s B Hfu Hok Hb Hit Hend Hlc Hip Hcb HR.
+    intros a0 b incl step x body Hbody pins lr il sl bt ct fuel k a g env s B Hfu Hok Hb Hit Hend Hlc Hip Hacb HR. destruct Hend as [Hend|[Hend _]]; [|discriminate Hend].
     destruct fuel as [|fuel]; [exact Logic.I|].
     rewrite ok_SFrom in Hok. rewrite !Bool.andb_true_iff in Hok. destruct Hok as [[[[[[Hx Hxf] HxB] Hoa] Hob] Hst] Hokb].
     apply Bool.negb_true_iff in Hxf. pose proof (uname_of_b x Hx Hxf) as Hxu. clear Hx. rename Hxu into Hx.
@@ -2407,10 +2432,10 @@ Section Sim.
     destruct (ok_expr_parts _ _ Hst) as (Hpse & Hlse & Huse).
     (* ---- the loop *)
     assert (Hloop : forall n aL gL envL sL, locals envL = lL -> Rg pins' envL sL gL -> frames gL = F2 :: R ->
-              a_ip aL = kc -> length lL <= S (a_ss aL) ->
+              a_ip aL = kc -> a_cb aL = cb -> length lL <= S (a_ss aL) ->
               post pins sl bt ct fin B envL (frames g) aL gL
                    (from_iter (S fuel) incl hi step x false body n envL sL)).
-    { induction n as [|n IH]; intros aL gL envL sL ElL HGL EfL HipL HssL; [exact Logic.I|].
+    { induction n as [|n IH]; intros aL gL envL sL ElL HGL EfL HipL HcbL HssL; [exact Logic.I|].
       rewrite from_iter_S. rewrite ElL, HlxL.
       destruct (Rg_lookup envL sL gL x HGL Hx ltac:(rewrite ElL, HlxL; discriminate)) as (c0 & c0' & v & E1 & E2 & Hp & E3 & Hfo & E4).
       rewrite ElL, HlxL in E1. inversion E1; subst c0. rewrite E3.
@@ -2455,7 +2480,7 @@ Section Sim.
       { split; [discriminate|]. intros m E. inversion E; subst m. cbn [push_scope locals length]. rewrite ElL.
         fold lbd. fold ks. cbn [lL length]. unfold fin, kd, kj, kp in *. repeat split; lia. }
       pose proof (Hbody pins' (S lr) true (Some 1) kd ks (S fuel) kb a0' g0 (push_scope envL) sL (x :: B) ltac:(lia) Hokb HbL0 Hib'
-                    ltac:(fold cb0; fold lbd; unfold fin, kd, kj, kp, ks in *; lia) Hlc0 eq_refl HcbL HR0) as H.
+                    ltac:(left; fold cb0; fold lbd; unfold fin, kd, kj, kp, ks in *; lia) Hlc0 eq_refl HcbL HR0) as H.
       fold cb0 in H. fold lbd in H. fold ks in H. unfold in_block_.
       destruct (exec_block (S fuel) (push_scope envL) body sL) as [sig env2 s2|f s2|]; [| |exact Logic.I].
       2:{ cbn [post] in H |- *. eapply fail_post_map; [|exact H]. intros (e0 & g' & Hf & Hr & Ho). exists e0, g'.
@@ -2526,7 +2551,7 @@ Section Sim.
             eapply xrun_trans; [exact RS|exact RN].
           + split; [rewrite Epop, ElL; reflexivity|rewrite Epop; discriminate].
           + destruct HaB as (A1 & A2 & A3). repeat split; assumption.
-          + apply IH; [exact Epop|exact HGN| |reflexivity|].
+          + apply IH; [exact Epop|exact HGN| |reflexivity|cbn [set_ip aS aE upd set_ops a_cb]; rewrite (proj2 (proj2 HaB)); exact HcbL|].
             * rewrite EfN. change (frames gS) with (frames gS'). rewrite EfS', HfE. exact HfB.
             * cbn [set_ip aS aE upd set_ops a_ss]. rewrite Hlen2 in HssB. cbn [lL length] in *. lia.
         - destruct Hsr as (g3x & Rf3 & Ho3). cbn [post fail_post]. exists (E_overflow OP_BIN_OP), g3x.
@@ -2574,7 +2599,7 @@ Section Sim.
         destruct HaB as (A1 & A2 & A3). repeat split; assumption. }
     (* ---- put the pieces together *)
     eapply (post_seq pins sl bt ct fin B env (frames g) a g env1 a4 g4); [exact R4|exact Hd2|repeat split|].
-    apply Hloop; [exact El1|exact HG4|exact Ef4|exact Hip4|].
+    apply Hloop; [exact El1|exact HG4|exact Ef4|exact Hip4|exact Hacb|].
     unfold lL, a4. cbn [length upd set_ip set_ops a_ss] in *. exact Hss.
   Qed.
 
@@ -2594,7 +2619,8 @@ Section Sim.
     apply items_at_app in Hit as [Hce Hi]. apply items_at_CI in Hce. rewrite map_length in Hi.
     apply items_at_cons in Hi as [Hi1 _]. cbn [item_instr I] in Hi1.
     destruct HR as (HG & Hops & Hss).
-    pose proof (rhs_run pins e fuel k a g env s B ltac:(lia) Hoe Hb Hce ltac:(lia) Hip Hcb Hops HG) as He.
+    assert (Hend' : k + length (xcode c e) < length code) by (destruct Hend as [H|[_ H]]; lia).
+    pose proof (rhs_run pins e fuel k a g env s B ltac:(lia) Hoe Hb Hce Hend' Hip Hcb Hops HG) as He.
     rewrite exec_SReturn.
     destruct (eval fuel env e s) as [v s1|s1|f s1|]; cbn [rhs_res] in He; [|exact Logic.I|exact He|exact Logic.I].
     destruct He as (Hfo & a1 & g1 & R1 & Hip1 & Hops1 & HG1 & Hf1 & Ha1 & Hss1).
@@ -2707,8 +2733,8 @@ Theorem cblock_correct : forall l B, ok_block FT false B l = true ->
   let mid := strip (fst (cblockT path c None l st)) in
   let code := pre ++ mid ++ post_ in
   let fin := length pre + length mid in
-  post_ <> [] -> small (c + 2 * length code + 8) ->
-  a_ip a = length pre -> Rst pins env s a g -> bound_in B env ->
+  (post_ <> [] \/ ends_ret l = true) -> small (c + 2 * length code + 8) ->
+  a_ip a = length pre -> a_cb a = cb -> Rst pins env s a g -> bound_in B env ->
   (forall fuel', fuel' < fuel -> call_ok prog fuel') ->
   match exec_block fuel env l s with
   | SOk SigNormal env' s' => exists a' g',
@@ -2724,17 +2750,20 @@ Theorem cblock_correct : forall l B, ok_block FT false B l = true ->
   | SFuel => True
   end.
 Proof.
-  intros l B Hok c st pins prog name pre post_ a g env s fuel mid code fin Hpost Hsm Hip HR Hb Hcall.
+  intros l B Hok c st pins prog name pre post_ a g env s fuel mid code fin Hpost Hsm Hip Hcb HR Hb Hcall.
   pose proof (bitems_all_CI c l B (lreg st) None Hok) as HCI.
   assert (Emid : mid = strip (bitems c (lreg st) None l)) by (unfold mid; now rewrite (cblockT_ok path c l FT false B None st Hok)).
   assert (Elen : length mid = length (bitems c (lreg st) None l)) by (rewrite Emid; now apply strip_CI_length).
-  pose proof (block_sim prog name code c Hsm fuel l pins (lreg st) false None 0 0 fuel (length pre) a g env s B (le_n _) Hok Hb) as H.
+  pose proof (block_sim prog name code c Hsm fuel Hcall l pins (lreg st) false None 0 0 fuel (length pre) a g env s B (le_n _) Hok Hb) as H.
   rewrite <- Elen in H. fold fin in H.
   assert (Hit : items_at code 0 0 (length pre) (bitems c (lreg st) None l)).
   { apply items_at_strip; [exact HCI|]. rewrite <- Emid. apply code_at_embed. }
-  assert (Hend : length pre + length mid < length code) by (apply embed_length; exact Hpost).
+  assert (Hend : endok code fin (ends_ret l)).
+  { destruct post_ as [|i0 post0].
+    - right. destruct Hpost as [Hp|Hp]; [congruence|]. split; [exact Hp|]. unfold fin, code. rewrite !app_length. cbn [length]. lia.
+    - left. apply embed_length. discriminate. }
   assert (Hlc : lc_ok code false None 0 0 env fin) by (split; [discriminate|intros m E; discriminate]).
-  specialize (H Hit Hend Hlc Hip HR).
+  specialize (H Hit Hend Hlc Hip Hcb HR).
   destruct (exec_block fuel env l s) as [sig env' s'|f s'|]; [| |exact Logic.I].
   - cbn [post] in H. destruct H as [Hd H]. destruct sig as [| | |rv].
     + destruct H as (HB' & a' & g' & R & Hip' & HR' & Ha). exists a', g'. split; [exact R|]. split; [exact Hip'|]. split; [exact HR'|]. split; [exact (proj1 Ha)|]. split; [exact Hd|]. split; [exact HB'|exact (proj2 Ha)].
@@ -2811,7 +2840,7 @@ Proof.
                 {| locals := [[]]; captured := []; cur := None |} {| store := []; rout := [] |} fuel) as H.
   cbv zeta in H. rewrite (cblockT_ok path 0 p [] false [] None _ Hok) in H. cbn [fst app length Nat.add lreg] in H.
   fold (module_code p) in H.
-  specialize (H ltac:(discriminate) Hsm eq_refl (Rst_init name) ltac:(split; [intros x; cbn; split; [congruence|intros [[]|[]]]|intros x []])
+  specialize (H ltac:(left; discriminate) Hsm eq_refl eq_refl (Rst_init name) ltac:(split; [intros x; cbn; split; [congruence|intros [[]|[]]]|intros x []])
                 ltac:(intros fuel' _ f ps body c0 c0' cenv cbf vs s0 g1 E; discriminate)).
   unfold run in *.
   assert (Ecode : assoc name P = Some (module_code p)).
